@@ -1212,6 +1212,11 @@ def solve_sylvester_direct(
         if index[0] < len(eigenvalues) and index[1] < len(eigenvalues):
             return explicit_part(Y, index)
 
+        if index[0] == index[1]:
+            # Nothing is eliminated within the implicit block, but the algorithm may
+            # ask (and then discard the answer) if other blocks are fully diagonalized.
+            return zero
+
         if index[0] == len(eigenvalues):
             if greens_functions_left is None:
                 raise NotImplementedError(
